@@ -1206,6 +1206,13 @@ def check_C20(A: Analysis, tier):
                         ra.fail(main, f"{meth}({pn}=args.{t[1]})", rd_, A.p.loc(main, c["node"]))
                 elif tag(t) == "int":
                     ra.fail(main, f"{meth}({pn}=int(...))", f"`{pn}` of {meth} is a string parameter but receives an int()", A.p.loc(main, c["node"]))
+            for t in v:
+                for x in subterms(t):
+                    if tag(x) == "orelse" and any(tag(y) == "opt" for y in x[1][0]):
+                        rd.ob()
+                        rd.fail(main, f"{meth}({pn}=<option> or <default>)", f"`{pn}` of {meth} is taken from the option with an `or` default: an explicitly given "
+                                "but falsy value (the empty string) is silently replaced, where the API would use or reject exactly what was given",
+                                A.p.loc(main, c["node"]))
             if (meth, pn) in NONE_SENSITIVE:
                 rd.ob()
                 rd.inst(f"{meth}({pn}=) <- {showv(v)[:80]}")
